@@ -62,6 +62,10 @@ EvChecks(ev) ==
     [] ev.ev = "route_add" ->
          << <<"C19.router.stores-only-registered-hops", ev.res = "ok" => SeqToSet(ev.args.perm) \in live>>,
             <<"C19.router.registered-flag", ev.obs.registered = (SeqToSet(ev.args.perm) \in live)>> >>
+    [] ev.ev = "route_add2" ->
+         LET h1 == {ev.args.path[1], ev.args.path[2]}  h2 == {ev.args.path[2], ev.args.path[3]} IN
+         << <<"C19.router.stores-only-registered-hops", ev.res = "ok" => (h1 \in live /\ h2 \in live)>>,
+            <<"C19.router.registered-flag", ev.obs.registered = <<h1 \in live, h2 \in live>> >> >>
     [] ev.ev = "route_exec" ->
          << <<"C19.router.executes-only-registered-hops", ev.res = "ok" => SeqToSet(ev.args.perm) \in live>> >>
     [] ev.ev = "reset" -> ObsChecks(ev.obs, {})
